@@ -125,6 +125,7 @@ structure CoreSt where
   shim : ShimView := {}
   rmPlaced : List String := []   -- keys the RM itself reported as bound (external placement / recovery)
   lostInflight : List String := []   -- real halves of cross-node replacements whose ask was released while in flight (known class I7r)
+  lostTimeout : List String := []    -- … whose ask was dropped by the placeholder timeout of a not yet running application (known class I7o)
 
 def firstSome (l : List (Unit → Option String)) : Option String := l.findSome? (fun f => f ())
 
@@ -133,10 +134,21 @@ def stepClauses (op : String) (_j : Json) (pre post : Core) (msgs : List Json) :
   let s (m : Json) (k : String) := (jStr (fldD m k (.str ""))).toOption.getD ""
   let newAllocs := msgs.filter (fun m => s m "t" == "alloc")
   List.filterMap (fun (f : Unit → Option String) => f ()) [
-    -- C01 bind guards: every allocation the scheduler itself announces
+    -- C01 bind guards: every allocation the scheduler itself decides in a scheduling cycle: the ones it announces
+    -- (normal, reserved, placeholder) and the real halves of placeholder replacements it puts on ANOTHER node (these are
+    -- announced only when the shim confirms the swap, but the node is chosen and charged now). A replacement on the
+    -- placeholder's own node is not a new bind: the property does not list it.
     fun _ => if op != "schedule" then none else
-      newAllocs.findSome? (fun m =>
-        let key := s m "key"; let app := s m "app"; let node := s m "node"
+      let announced : List (String × String × String) := newAllocs.map (fun m => (s m "key", s m "app", s m "node"))
+      let swapped : List (String × String × String) := (post.apps.map (fun a => a.items.filterMap (fun i =>
+          if !i.inflightReal then none else
+          match (pre.findApp a.id).bind (fun pa => pa.items.find? (·.key == i.key)) with
+          | some pi => if pi.inflightReal then none else
+              (match i.release.bind (fun pk => a.items.find? (·.key == pk)) with
+               | some p => if p.node == i.node then none else some (i.key, a.id, i.node)
+               | none => some (i.key, a.id, i.node))
+          | none => none))).flatten
+      (announced ++ swapped).findSome? (fun (key, app, node) =>
         match pre.findNode node, pre.findApp app with
         | none, _ => some s!"C01.bind-unregistered-node {key}@{node}"
         | _, none => some s!"C01.bind-unknown-application {key}/{app}"
@@ -144,10 +156,7 @@ def stepClauses (op : String) (_j : Json) (pre post : Core) (msgs : List Json) :
           match a.items.find? (·.key == key) with
           | none => some s!"C01.bind-unknown-ask {key}"
           | some i =>
-            -- a same-node replacement uses the placeholder's space
-            let extra : Res := match i.release with
-              | some pk => (match a.items.find? (·.key == pk) with | some p => if p.node == node then p.res else [] | none => [])
-              | none => []
+            let isSwap := swapped.any (·.1 == key)
             if !n.schedulable then
               -- known classes (KNOWN_FINDINGS C01): the required-node and the reserved-allocation paths do not look at the flag
               (if i.reqNode != "" then some s!"C01.bind-unschedulable-node-required {key}@{node}"
@@ -157,11 +166,11 @@ def stepClauses (op : String) (_j : Json) (pre post : Core) (msgs : List Json) :
             -- (an ask that requires this node cancels the reservations of others: tryRequiredNode)
             -- (a reservation the scheduler cancelled in the same cycle — timeout, preemption — is gone afterwards: only a
             --  reservation of another ask that is still there after the bind means the node was given away while reserved)
-            else if !(n.reservations.isEmpty || n.reservations.contains key || i.release.isSome || i.reqNode == node) &&
+            else if !(n.reservations.isEmpty || n.reservations.contains key || i.reqNode == node) &&
                     (match post.findNode node with
                      | some pn => pn.reservations.any (fun k => k != key && n.reservations.contains k)
-                     | none => false) then some s!"C01.bind-node-reserved-for-other {key}@{node}"
-            else if !(fitInStd (some (addX n.available extra)) (some i.res)) then some s!"C01.bind-does-not-fit {key}@{node} ask={showRes i.res} available={showRes n.available}"
+                     | none => false) then some s!"C01.bind-node-reserved-for-other {key}@{node}{if isSwap then " (replacement)" else ""}"
+            else if !(fitInStd (some n.available) (some i.res)) then some s!"C01.bind-does-not-fit {key}@{node} ask={showRes i.res} available={showRes n.available}"
             else none),
     -- C02: a scheduling cycle creates no new over-max usage
     fun _ => if op != "schedule" then none else
@@ -243,10 +252,19 @@ def coreStep (st : CoreSt) (j : Json) : Except String (CoreSt × String) := do
     tag "C04" protoErr
   -- consequences of one root cause are marked: an allocation of a terminated application that was never released
   -- (I7t) also shows in the allocation counter and in the user's tracked usage, also after its node is gone
-  let orphan := fails.any (fun f => f.startsWith "C03.I7t") || post.apps.any (fun a => !a.live && a.items.any (·.bound))
-  let fails := if orphan then fails.map (fun f =>
-      if f.startsWith "C03.I10 " then "C03.I10+I7t " ++ (f.drop 8).toString
-      else if f.startsWith "C05.usage-ne-sum " then "C05.usage-ne-sum+I7t " ++ (f.drop 17).toString else f) else fails
+  let terminatedHolding := post.apps.filter (fun a => !a.live && a.items.any (·.bound))
+  let suffix : Option String :=
+    if terminatedHolding.any (fun a => a.items.any (fun i => i.bound && i.ph)) then some "+I7p"
+    else if terminatedHolding.any (fun a => a.log.contains "Failed") then some "+I7t"
+    else if !terminatedHolding.isEmpty then some "+I7c" else none
+  let fails := match suffix with
+    | some sfx => fails.map (fun f =>
+        if f.startsWith "C03.I10 " then "C03.I10" ++ sfx ++ " " ++ (f.drop 8).toString
+        else if f.startsWith "C05.usage-ne-sum " then "C05.usage-ne-sum" ++ sfx ++ " " ++ (f.drop 17).toString else f)
+    | none => fails
+  -- C06: no placeholder outlives its application
+  let fails := fails ++ (terminatedHolding.filterMap (fun a =>
+      (a.items.find? (fun i => i.bound && i.ph)).map (fun i => s!"C06.placeholder-outlives-application {a.id} {i.key}")))
   -- Known class (KNOWN_FINDINGS C03.I7r / C04): the RM releases a real ask whose placeholder replacement is in flight.
   -- removeAllocation does not find it among the allocations and only drops the ask: the real half already placed on
   -- another node stays there, and the confirmation of the swap later announces the released ask as a new allocation.
@@ -258,10 +276,18 @@ def coreStep (st : CoreSt) (j : Json) : Except String (CoreSt × String) := do
         (pre.liveApps.map (fun a => (a.items.filter (fun i => i.inflightReal && ((relKey != "" && i.key == relKey) || (relApp != "" && a.id == relApp)))).map (·.key))).flatten
     | none => []
   let lost := st.lostInflight ++ releasedNow
-  let st' : CoreSt := { st' with lostInflight := lost }
+  -- Known class (KNOWN_FINDINGS C03.I7o): the placeholder timeout of an application that is not yet Running drops every
+  -- ask (removeAsksInternal("")), also the real ask whose replacement on another node is in flight
+  let timedOutNow : List String := match st.prev with
+    | some pre => if op != "ph-timeout" then [] else
+        (pre.liveApps.map (fun a => (a.items.filter (fun i => i.inflightReal && a.id == (jStr (fldD j "app" (.str ""))).toOption.getD "")).map (·.key))).flatten
+    | none => []
+  let lostT := st.lostTimeout ++ timedOutNow
+  let st' : CoreSt := { st' with lostInflight := lost, lostTimeout := lostT }
   let keyOf (f : String) : String := ((f.splitOn " ").getLast!.splitOn "@").head!
   let fails := fails.map (fun f =>
       if (f.startsWith "C03.I7 allocation not listed by its application " || f.startsWith "C03.I7 allocation of unknown application ") && lost.contains (keyOf f) then "C03.I7r " ++ (f.drop 7).toString
+      else if (f.startsWith "C03.I7 allocation not listed by its application " || f.startsWith "C03.I7 allocation of unknown application ") && lostT.contains (keyOf f) then "C03.I7o " ++ (f.drop 7).toString
       else if f.startsWith "C04." && lost.contains (keyOf f) then
         -- every protocol clause about such a key is a consequence of the same root cause
         (match f.splitOn " " with
